@@ -13,7 +13,7 @@ func init() {
 	register("C18", "Decides structural necessary conditions of 'every component draws temporal shard boundaries at the same instants': "+
 		"(R1) ctfe.ValidateChain, (R2) client.TemporalLogClient.IndexByDate and (R3) loglist3.LogList.TemporallyCompatible are each compared, for every feasible combination of bound presence and of the order of t against start and limit (t<, t=, t>), with the one predicate of the property, inside ⇔ (no start ∨ t ≥ start) ∧ (no limit ∨ t < limit); since all three are compared with the same table they agree pairwise on every instant including the exact boundary values; "+
 		"(R4) the compared operands are the whole time.Time instants (leaf NotAfter of chain[0] / of the parsed first chain entry / of the certificate; the configured bounds) with no truncation or unit conversion in between, the bounds reach the comparison unswapped from the configuration (NotAfterStart→start/lower, NotAfterLimit→limit/upper), and the shard chosen / log kept is the one whose interval was tested; "+
-		"(R5) construction: shardInterval refuses invalid timestamps and ¬(lower < upper); NewTemporalLogClient refuses an empty list, a shard after an interval without upper bound, a later shard without lower bound and lower ≠ previous upper, and extends the overall span by the new upper bound; ValidateLogConfig refuses limit < start and invalid timestamps. "+
+		"(R5) construction: shardInterval refuses invalid timestamps and ¬(lower < upper); NewTemporalLogClient refuses an empty list, a shard after an interval without upper bound, a later shard without lower bound and lower ≠ previous upper, and extends the overall span by the new upper bound — or, where the previous shard's interval is read back from the list of intervals (inside the conversion loop or in a pair loop of its own), compares shard i with shard i−1 for every i from 1 to the last shard; ValidateLogConfig refuses limit < start and invalid timestamps. "+
 		"NOT covered: that the X.509 parser yields the right NotAfter; the behaviour of time.Time.Before/After/Equal and timestamppb.AsTime themselves; that IndexByDate's first-match order coincides with 'exactly one shard' is derived from contiguity (R5) plus the table (R2), not checked on concrete shard lists; log lists whose intervals overlap.",
 		runC18)
 }
@@ -360,6 +360,10 @@ func c18NewTemporalLogClient(r *Run, fn *ssa.Function) {
 	ovr := r.allocOf(fn, "client.shardInterval(p0.Shard[0]*)#0")
 	cur := r.allocOf(fn, "client.shardInterval(p0.Shard[it@*]*)#0")
 	if ovr == "" && cur != "" && c18FoldedShardLoop(r, fn, key) {
+		return
+	}
+	// the previous shard's interval read back from the list of intervals under construction (rules_t6c1518.go)
+	if ovr == "" && c18NeighbourPairs(r, fn, key) {
 		return
 	}
 	if !r.Check(key+":overall/next", ovr != "" && cur != "" && ovr != cur, r.FnPos(fn), "overall span starts as shardInterval(Shard[0]) in "+ovr+"; each later shard is shardInterval(Shard[i]) in "+cur) {
